@@ -231,6 +231,135 @@ theorem stream_core (cF cO : Codec) (rc : RxCfg) (s : SessCfg) (o : ObjCfg)
       · exact Or.inl h
   · rw [hpall]; exact hdec
 
+/-- number of FDT completions among the events -/
+def fdtCount : List Ev → Nat
+  | [] => 0
+  | .fdt _ :: es => fdtCount es + 1
+  | .pkt _ :: es => fdtCount es
+
+theorem fdtCount_append (a b : List Ev) : fdtCount (a ++ b) = fdtCount a + fdtCount b := by
+  induction a with
+  | nil => simp [fdtCount]
+  | cons e es ih => cases e <;> simp [fdtCount, ih] <;> omega
+
+theorem fdtCount_fdts : ∀ (fs : List Ev), (∀ e, e ∈ fs → ∃ l, e = Ev.fdt l) → fdtCount fs = fs.length := by
+  intro fs
+  induction fs with
+  | nil => intro _; rfl
+  | cons e es ih =>
+    intro h
+    obtain ⟨l, rfl⟩ := h e (List.mem_cons_self ..)
+    simp [fdtCount, ih (fun e he => h e (List.mem_cons_of_mem _ he))]
+
+/-- the driver's `fdt=<n>` observable counts exactly these events -/
+theorem fdtCount_eventsFor (dec : (k p : Nat) → List Nat → Bool) (rc : RxCfg) (s : SessCfg) (o : ObjCfg) (hto : o.toi ≠ 0) :
+    ∀ (ps : List Pkt) (st : FdtRx), fdtCount (eventsFor dec rc s o st ps) = countFdt dec rc s st ps := by
+  intro ps
+  induction ps with
+  | nil => intro st; rfl
+  | cons p ps ih =>
+    intro st
+    unfold eventsFor countFdt
+    by_cases h0 : (p.toi == 0) = true
+    · simp only [h0, ↓reduceIte]
+      cases hd : (stepFdt dec rc s st p).2 with
+      | none => simp [hd, ih]
+      | some f => simp [hd, fdtCount, ih]; omega
+    · have h0' : (p.toi == 0) = false := by simpa using h0
+      simp only [h0', Bool.false_eq_true, ↓reduceIte]
+      split
+      · simp [fdtCount, ih]
+      · exact ih st
+
+/-- `stream_core` without the FullFDT hypothesis (ObjectsBeingTransferred, objects added after a publish): the
+    instance `f` received whole lists the object (`hlist`), other instances may or may not; at most 9 FDT instances
+    complete in the whole reception (`hfew`; the receiver remembers the last 10, `fdt_current`), so the listing
+    instance is still known when the object's next packet arrives. -/
+theorem stream_core_few (cF cO : Codec) (rc : RxCfg) (s : SessCfg) (o : ObjCfg)
+    (hto : o.toi ≠ 0) (hN : o.ks.isEmpty = false) (hfit : Fits rc o)
+    (f : FdtCfg) (hlist : f.files.contains o.toi = true) (hfind : s.fdts.find? (fun x => x.id == f.id) = some f)
+    (hfN : f.ks.isEmpty = false) (hflook : f.ks.size ≤ rc.maxLook)
+    (hfresh : blockDone cF.canDecode f.ks s.fdtP [] 0 = false)
+    (ps1 ps2 : List Pkt)
+    (hgenF : ∀ p, p ∈ ps1 → p.toi = 0 → p.fdtId = f.id → Genuine (fdtObj s f) (toSym p) ∧ p.close = false)
+    (hwhole : AllDec cF (fdtObj s f) (fsyms f.id ps1))
+    (hnoclose : ∀ q, q ∈ osyms o ps1 → q.close = false)
+    (hgenO : ∀ q, q ∈ osyms o (ps1 ++ ps2) → Genuine o q)
+    (hlast : CloseLastSyms (osyms o (ps1 ++ ps2)))
+    (hdec : AllDec cO o (osyms o (ps1 ++ ps2)))
+    (hsome : osyms o (ps1 ++ ps2) ≠ [])
+    (hfew : fdtCount (eventsFor cF.canDecode rc s o fdtRx0 (ps1 ++ ps2)) ≤ 9) :
+    1 ≤ (observe cF.canDecode cO.canDecode rc s o (ps1 ++ ps2)).completes := by
+  unfold observe
+  rw [eventsFor_append] at hfew ⊢
+  -- the FDT instance completes within ps1
+  have hev := fdt_whole_completes cF rc s o f hfind hfN hflook hfresh ps1 hgenF hwhole
+  have hfl : f.files.contains o.toi = true := hlist
+  rw [hfl] at hev
+  obtain ⟨a, b, hab⟩ := List.append_of_mem hev
+  generalize hE2 : eventsFor cF.canDecode rc s o (fdtState cF.canDecode rc s fdtRx0 ps1) ps2 = E2
+  rw [hE2, hab, List.append_assoc, List.cons_append] at hfew
+  rw [hab, List.append_assoc, List.cons_append]
+  -- the packet events are the object's packets
+  have hp1 : pktSyms (a ++ Ev.fdt true :: b) = osyms o ps1 := by
+    rw [← hab]; exact events_packets cF.canDecode rc s o hto ps1 _
+  have hp2 : pktSyms E2 = osyms o ps2 := by
+    rw [← hE2]; exact events_packets cF.canDecode rc s o hto ps2 _
+  have hpall : pktSyms (a ++ Ev.fdt true :: (b ++ E2)) = osyms o (ps1 ++ ps2) := by
+    have : a ++ Ev.fdt true :: (b ++ E2) = (a ++ Ev.fdt true :: b) ++ E2 := by simp
+    rw [this, pktSyms_append, hp1, hp2, osyms_append]
+  have hpa : ∀ q, Ev.pkt q ∈ a → q ∈ osyms o ps1 := by
+    intro q hq
+    rw [← hp1, mem_pktSyms]
+    exact List.mem_append_left _ hq
+  apply recoverable_core cO rc o hN hfit a (b ++ E2)
+  · intro q hq
+    apply hgenO
+    rw [← hpall, mem_pktSyms]; exact hq
+  · intro q hq; exact hnoclose q (hpa q hq)
+  · -- attachment
+    by_cases hpk : ∃ q, Ev.pkt q ∈ a
+    · exact Or.inl hpk
+    · right
+      obtain ⟨fs, rest, h1, h2, h3⟩ := lead_fdts (b ++ E2)
+      refine ⟨fs, rest, h1, h2, Or.inl ?_, ?_⟩
+      · -- fewer than 10 FDT instances complete in the whole reception
+        have hc1 : fdtCount (a ++ Ev.fdt true :: (b ++ E2)) = fdtCount a + 1 + fdtCount (b ++ E2) := by
+          rw [fdtCount_append]; simp [fdtCount]; omega
+        have hc2 : fdtCount (b ++ E2) = fdtCount fs + fdtCount rest := by rw [h1, fdtCount_append]
+        have hc3 : fdtCount fs = fs.length := fdtCount_fdts fs h2
+        omega
+      · rcases h3 with h3 | h3
+        · exfalso
+          apply hsome
+          rw [← hpall]
+          have ha : pktSyms a = [] := by
+            cases hx : pktSyms a with
+            | nil => rfl
+            | cons q _ =>
+              exact absurd ⟨q, mem_pktSyms.mp (by rw [hx]; exact List.mem_cons_self ..)⟩ hpk
+          rw [pktSyms_append, ha]
+          simp only [pktSyms, List.nil_append]
+          rw [h1, h3, List.append_nil]
+          exact pktSyms_fdts fs h2
+        · exact h3
+  · apply closeOK_of_lastSyms cO o
+    · -- the packets after the FDT completion are a suffix of the object's packets
+      intro x q y hxy hq r hr
+      have : osyms o (ps1 ++ ps2) = (pktSyms a ++ x) ++ q :: y := by
+        rw [← hpall, pktSyms_append]
+        simp only [pktSyms]
+        rw [hxy]; simp
+      exact hlast _ q y this hq r hr
+    · apply allDec_mono cO o _ _ _ hdec
+      intro q hq
+      rw [← hpall, pktSyms_append] at hq
+      simp only [pktSyms, List.mem_append, List.mem_reverse] at hq ⊢
+      rcases hq with h | h
+      · exact Or.inr h
+      · exact Or.inl h
+  · rw [hpall]; exact hdec
+
 /-- the empty object (no block): delivered by its first packet after an FDT instance listing it has been
     received whole - whatever arrived before (D14 repaired) -/
 theorem stream_core_empty (cF cO : Codec) (rc : RxCfg) (s : SessCfg) (o : ObjCfg)
